@@ -74,6 +74,7 @@ type TermCtx struct {
 	nextID int
 	True   *Term
 	False  *Term
+	Raw    bool // only constant folding: every other verification condition reaches the solver
 }
 
 func NewTermCtx() *TermCtx {
@@ -211,7 +212,7 @@ func (c *TermCtx) Ite(cond, a, b *Term) *Term {
 	if a == b {
 		return a
 	}
-	if a.w == 0 {
+	if a.w == 0 && !c.Raw {
 		if a.op == OpConst && b.op == OpConst {
 			if a.k != 0 {
 				return cond
@@ -243,6 +244,12 @@ func (c *TermCtx) Eq(a, b *Term) *Term {
 	}
 	if a.op == OpConst && b.op == OpConst {
 		return c.Bool(a.k == b.k)
+	}
+	if c.Raw {
+		if a.id > b.id {
+			a, b = b, a
+		}
+		return c.mk(OpEq, 0, a, b, nil, 0, "")
 	}
 	if a.w == 0 {
 		if a.op == OpConst {
@@ -396,6 +403,9 @@ func (c *TermCtx) Bin(op Op, a, b *Term) *Term {
 	}
 	if a.op == OpConst && b.op == OpConst {
 		return c.Const(evalBin(op, w, a.k, b.k), rw)
+	}
+	if c.Raw {
+		return c.mk(op, rw, a, b, nil, 0, "")
 	}
 	switch op {
 	case OpAdd:
@@ -609,6 +619,12 @@ func (c *TermCtx) Extract(a *Term, hi, lo int) *Term {
 	if w == a.w {
 		return a
 	}
+	if c.Raw {
+		if a.op == OpConst {
+			return c.Const(a.k>>uint(lo), w)
+		}
+		return c.mk(OpExtract, w, a, nil, nil, uint64(hi)<<8|uint64(lo), "")
+	}
 	switch a.op {
 	case OpConst:
 		return c.Const(a.k>>uint(lo), w)
@@ -667,6 +683,9 @@ func (c *TermCtx) Concat(a, b *Term) *Term {
 	if a.op == OpConst && b.op == OpConst {
 		return c.Const(a.k<<uint(b.w)|b.k, w)
 	}
+	if c.Raw {
+		return c.mk(OpConcat, w, a, b, nil, 0, "")
+	}
 	if a.op == OpConst && a.k == 0 {
 		return c.ZExt(b, w)
 	}
@@ -677,12 +696,6 @@ func (c *TermCtx) Concat(a, b *Term) *Term {
 		if alo == bhi+1 {
 			return c.Extract(a.a, int(a.k>>8), int(b.k&0xff))
 		}
-	}
-	if a.op == OpExtract && a.a == b && int(a.k&0xff) == b.w {
-		// extract(x,hi,w_b) ++ x  where x has width w_b?? not possible (x width > w_b); skip
-	}
-	// extract(x, hi, n) ++ (extract(x,n-1,..) handled above); x's high part ++ whole low var
-	if b.op != OpExtract && a.op == OpExtract && false {
 	}
 	// right-assoc normalisation: (p ++ q) ++ r  ->  p ++ (q ++ r)
 	if a.op == OpConcat {
@@ -712,7 +725,7 @@ func (c *TermCtx) ZExt(a *Term, w int) *Term {
 	if a.op == OpConst {
 		return c.Const(a.k, w)
 	}
-	if a.op == OpZExt {
+	if a.op == OpZExt && !c.Raw {
 		return c.ZExt(a.a, w)
 	}
 	return c.mk(OpZExt, w, a, nil, nil, 0, "")
@@ -727,6 +740,9 @@ func (c *TermCtx) SExt(a *Term, w int) *Term {
 	}
 	if a.op == OpConst {
 		return c.Const(uint64(sext64(a.k, a.w)), w)
+	}
+	if c.Raw {
+		return c.mk(OpSExt, w, a, nil, nil, 0, "")
 	}
 	if a.op == OpZExt && a.a.w < a.w {
 		return c.ZExt(a.a, w)
@@ -1061,4 +1077,38 @@ func (t *Term) String() string {
 		s = s[:200] + "..."
 	}
 	return s
+}
+
+// Rebuild re-applies t's operator to new operands (used for substitution of known values).
+func (c *TermCtx) Rebuild(t *Term, a, b, cc *Term) *Term {
+	if a == t.a && b == t.b && cc == t.c {
+		return t
+	}
+	switch t.op {
+	case OpNot:
+		return c.Not(a)
+	case OpAnd:
+		return c.And(a, b)
+	case OpOr:
+		return c.Or(a, b)
+	case OpIte:
+		return c.Ite(cc, a, b)
+	case OpEq:
+		return c.Eq(a, b)
+	case OpBNot:
+		return c.BNot(a)
+	case OpNeg:
+		return c.Neg(a)
+	case OpExtract:
+		return c.Extract(a, int(t.k>>8), int(t.k&0xff))
+	case OpConcat:
+		return c.Concat(a, b)
+	case OpZExt:
+		return c.ZExt(a, t.w)
+	case OpSExt:
+		return c.SExt(a, t.w)
+	case OpConst, OpVar:
+		return t
+	}
+	return c.Bin(t.op, a, b)
 }
